@@ -2,6 +2,7 @@ use crate::engine::Property;
 
 pub mod common;
 pub mod c01;
+pub mod c02;
 pub mod c04;
 pub mod c06;
 pub mod c09;
@@ -9,6 +10,7 @@ pub mod c09;
 pub fn lookup(id: &str) -> Option<&'static dyn Property> {
     match id {
         "C01" => Some(&c01::C01),
+        "C02" => Some(&c02::C02),
         "C04" => Some(&c04::C04),
         "C06" => Some(&c06::C06),
         "C09" => Some(&c09::C09),
